@@ -273,14 +273,14 @@ def make_spec(rng, abstract, routes=ALL_ROUTES, shuffle=False, as_ode_prob=0.0, 
     return spec, meta
 
 
-def rand_point(rng, meta, t_max=3, integer=False, zeros=False):
+def rand_point(rng, meta, t_max=3, integer=False, zeros=False, big=False):
     """`integer=True`: integer state values and an integer time (so that the point can be handed to the
     evaluators as Python ints / integer-dtype arrays), `zeros=True` additionally makes a quarter of the states
-    exactly 0 (zero rates); the default stream of random choices is unchanged"""
+    exactly 0 (zero rates), `big=True` draws populations of 1e4..1e6; the default stream of random choices is unchanged"""
     env = {}
     if integer:
         for s in meta["states"]:
-            env[s] = Fraction(0 if (zeros and rng.random() < 0.25) else rng.randint(1, 40))
+            env[s] = Fraction(0 if (zeros and rng.random() < 0.25) else (rng.randint(10 ** 4, 10 ** 6) if big else rng.randint(1, 40)))
         for p in meta["params"]:
             env[p] = Fraction(rng.randint(1, 20), rng.choice([7, 10, 13]))
         env["t"] = Fraction(rng.randint(0, t_max))
